@@ -203,11 +203,16 @@ def histories(ctx):
     rng = ctx.rng
     g = synth_gen.Gen(rng)
     hs = pedal_exhaustive(ctx, 3 if ctx.tier == "quick" else 5)
+    # directed: the extreme keys under panic / reset-state / all-notes-off / all-sound-off, on a melodic and the percussion channel
+    img = synth_gen.test_bank(rng)[0].hex()
+    for key in (127, 126, 0, 1):
+        for stop in ("panic", "rs", "cc 0 123 0", "cc 0 120 0"):
+            hs.append(["new 65536 1", "bank " + img, "on 0 %d 100" % key, "on 9 %d 100" % key, "gen 4096", stop, "cc 9 123 0", "gen 4096", "off 0 %d" % key, "off 9 %d" % key, "gen 4096"])
     n = 16 if ctx.tier == "quick" else 200
     for i in range(n):
         chips = rng.choice([1, 2])
         nk = 3 if chips == 1 else 6
-        keys = tuple(rng.sample(range(30, 90), nk))
+        keys = tuple(rng.sample(range(30, 90), nk - 1)) + (rng.choice([127, 0, 126, 1]),)     # the extreme keys too
         hs.append(g.history(rng.choice([40, 120]), chips=chips, chans=(0, 1, 9), keys=keys, arp=False))
     return hs
 
